@@ -326,6 +326,151 @@ def _filter_known(res):
     return "; ".join(keep) if keep else None
 
 
+# ---------------------------------------------------------------- real-OS replay (pty) where the scenario is expressible
+REAL_KINDS = ("input", "input_in_input", "cbreak", "cbreak_termmode", "nonblocking", "termmode")
+REAL_OPS = ("send0", "send_key", "trigger", "ts_trigger")
+
+
+def real_replay(kind, body, opts, init):
+    """the same scenario against the real OS on a pty (no crash point, no action inside a blocked select).
+    returns a description of what is not restored, None if everything is, or 'n/a' when not expressible"""
+    if kind not in REAL_KINDS or any(op not in REAL_OPS for op in body):
+        return "n/a"
+    import fcntl
+    import signal
+    import termios
+    import curtsies.input as ci
+    import curtsies.termhelpers as th
+    from curtsies import events
+    ai, fi, si, wi = init
+    master, slave = real_os.openpty()
+    stream = real_os.fdopen(slave, "rb+", buffering=0)
+    old_handler = signal.getsignal(signal.SIGINT)
+    extra_pipe = None
+    old_wakeup = None
+    try:
+        # initial state
+        attrs = termios.tcgetattr(slave)
+        if ai == 1:
+            attrs[3] &= ~(termios.ECHO | termios.ICANON)
+        elif ai == 2:
+            attrs[3] &= ~termios.ECHO
+            attrs[6][termios.VMIN] = 2
+        termios.tcsetattr(slave, termios.TCSANOW, attrs)
+        fl = fcntl.fcntl(slave, fcntl.F_GETFL)
+        if fi == 1:
+            fl |= real_os.O_APPEND
+        elif fi == 2:
+            fl |= real_os.O_NONBLOCK
+        fcntl.fcntl(slave, fcntl.F_SETFL, fl)
+        handlers = [signal.default_int_handler, signal.SIG_DFL, signal.SIG_IGN, _custom_handler]
+        signal.signal(signal.SIGINT, handlers[si])
+        if wi == 1:
+            extra_pipe = real_os.pipe()
+            real_os.set_blocking(extra_pipe[1], False)
+            old_wakeup = signal.set_wakeup_fd(extra_pipe[1], warn_on_full_buffer=False)
+        else:
+            old_wakeup = signal.set_wakeup_fd(-1)
+
+        def snap():
+            w = signal.set_wakeup_fd(-1)
+            signal.set_wakeup_fd(w, warn_on_full_buffer=False) if w != -1 else None
+            return {"attrs": termios.tcgetattr(slave), "flags": fcntl.fcntl(slave, fcntl.F_GETFL), "sigint": signal.getsignal(signal.SIGINT),
+                    "wakeup": w, "fds": set(real_os.listdir("/proc/self/fd"))}
+
+        problems = []
+        for rep in range(3):
+            before = snap()
+            nb = []
+
+            def mk_input():
+                return ci.Input(in_stream=stream, sigint_event=opts[0], disable_terminal_start_stop=opts[1])
+
+            def do_body(inp):
+                for op in body:
+                    if op == "send0":
+                        inp.send(0)
+                    elif op == "send_key":
+                        real_os.write(master, b"a")
+                        inp.send(0.5)
+                    elif op == "trigger":
+                        inp.event_trigger(events.SigIntEvent)()
+                        inp.send(0)
+                    elif op == "ts_trigger":
+                        cb = inp.threadsafe_event_trigger(events.SigIntEvent)
+                        cb()
+                        inp.send(1)
+                    if (fcntl.fcntl(slave, fcntl.F_GETFL) & real_os.O_NONBLOCK) != (before["flags"] & real_os.O_NONBLOCK):
+                        nb.append(op)
+
+            if kind == "input":
+                with mk_input() as inp:
+                    do_body(inp)
+            elif kind == "input_in_input":
+                with mk_input() as outer:
+                    with mk_input() as inp:
+                        do_body(inp)
+                    w = signal.set_wakeup_fd(-1)
+                    if w != -1:
+                        signal.set_wakeup_fd(w, warn_on_full_buffer=False)
+                    if w != outer.wakeup_write_fd:
+                        problems.append("after leaving the inner Input the outer Input's wake-up fd is not installed (is %r)" % (w,))
+            elif kind == "cbreak":
+                with th.Cbreak(stream):
+                    pass
+            elif kind == "cbreak_termmode":
+                with th.Cbreak(stream) as normal:
+                    with normal:
+                        pass
+            elif kind == "nonblocking":
+                with th.Nonblocking(stream):
+                    pass
+            elif kind == "termmode":
+                with th.Termmode(stream, termios.tcgetattr(slave)):
+                    pass
+            after = snap()
+            if after["attrs"] != before["attrs"]:
+                problems.append("tty attributes not restored")
+            if after["flags"] != before["flags"]:
+                problems.append("file status flags not restored: %o -> %o" % (before["flags"], after["flags"]))
+            if after["sigint"] is not before["sigint"] and after["sigint"] != before["sigint"]:
+                problems.append("SIGINT handler not restored: %r -> %r" % (before["sigint"], after["sigint"]))
+            if after["wakeup"] != before["wakeup"]:
+                problems.append("signal wake-up fd not restored: %r -> %r" % (before["wakeup"], after["wakeup"]))
+            if after["fds"] != before["fds"]:
+                problems.append("file descriptors leaked: %r" % sorted(after["fds"] - before["fds"]))
+            if nb:
+                problems.append("stream left in non-blocking mode between requests (%s)" % nb[0])
+            if problems:
+                break
+        return "; ".join(problems[:3]) if problems else None
+    finally:
+        signal.signal(signal.SIGINT, old_handler)
+        try:
+            signal.set_wakeup_fd(old_wakeup if old_wakeup is not None else -1)
+        except (ValueError, OSError):
+            signal.set_wakeup_fd(-1)
+        for fd in (extra_pipe or ()):
+            try:
+                real_os.close(fd)
+            except OSError:
+                pass
+        try:
+            stream.close()
+        except OSError:
+            pass
+        try:
+            real_os.close(master)
+        except OSError:
+            pass
+
+
+def _kinds_of(res):
+    """the kinds of problem named in a result string (for comparing model and real OS)"""
+    keys = ("tty attributes", "status flags", "SIGINT handler", "wake-up fd", "descriptors leaked", "non-blocking", "outer Input")
+    return sorted(k for k in keys if res and k in res)
+
+
 # ---------------------------------------------------------------- concrete twin
 def concrete(fn, params, args):
     P.clear()
@@ -338,6 +483,12 @@ def concrete(fn, params, args):
         body, opts, init, crash = H.pick_concrete(_cases(), args[0], args[1])
     ENV["orig_cbreak"] = cw.Cbreak
     res = run_scenario(params["kind"], body, opts, init, crash, repeat=3 if crash is None else 1)
+    real = "n/a"
+    if crash is None:
+        real = real_replay(params["kind"], body, opts, init)
+        if real != "n/a" and _kinds_of(real) != _kinds_of(res):
+            # the OS model and the real OS disagree: a modelling artefact, never reported as a violation
+            return {"ok": None, "harness_error": True, "note": "OS model says %r, real pty says %r" % (res, real)}
     region = None
     if res is not None:
         if "wake-up fd" in res and all(("wake-up fd" in p_) for p_ in res.split("; ")):
@@ -347,7 +498,7 @@ def concrete(fn, params, args):
     desc = "%s(%s) initial(attrs#%d, flags %o, SIGINT %r, wake-up fd %d) body %r crash %r" % (
         params["kind"], ", ".join("%s=%r" % kv for kv in zip(("sigint_event/hide_cursor", "disable_start_stop/keep_last_line"), opts)),
         init[0], FLAGS[init[1]], SIGINTS[init[2]], WAKEUPS[init[3]], body, crash)
-    return {"ok": res is None, "observed": res, "expected": "everything the context changed is restored", "call": desc, "known_region": region}
+    return {"ok": res is None, "observed": res, "real_os_replay": real, "expected": "everything the context changed is restored", "call": desc, "known_region": region}
 
 
 def region_of(fn, params, args):
